@@ -362,6 +362,9 @@ func (s *Sim) opDisconnect() {
 	s.chain = s.chain[:len(s.chain)-1]
 	b.onChain = false
 	s.depth++
+	if s.tip() < s.epochLowTip {
+		s.epochLowTip = s.tip()
+	}
 	if s.depth >= 2 {
 		s.R.Count("probe_deep_reorg")
 	}
@@ -397,7 +400,7 @@ func (s *Sim) reqFor(key string, mk func() *reqState) *reqState {
 		gk = fmt.Sprintf("ct:%d", rs.txIdx)
 	}
 	if s.groups[gk] == nil {
-		s.groups[gk] = &hintGroup{allOK: true}
+		s.groups[gk] = &hintGroup{allOK: true, regEpoch: -1}
 	}
 	rs.grp = s.groups[gk]
 	rs.registered, rs.outstanding, rs.dropped, rs.multi, rs.stale = false, nil, false, false, false
@@ -563,6 +566,23 @@ func (s *Sim) register(c *client) {
 	if !rs.registered {
 		rs.firstRegSeq = s.seq
 	}
+	if rs.grp.regEpoch != s.epoch {
+		// Assumption: a persisted hint is only relied upon for requests that
+		// were being watched whenever the chain was rolled back below it. If
+		// this notifier instance saw a reorg below the hint before anybody
+		// registered the request (equivalent to a reorg while offline), the
+		// hint may be stale through no fault of the notifier, and what is
+		// then written on top of it stays in the database.
+		rs.grp.regEpoch = s.epoch
+		lim := s.epochStartTip
+		if cached < lim {
+			lim = cached
+		}
+		if hasCached && s.epochLowTip < lim {
+			rs.grp.allOK = false
+			r.Count("probe_unwatched_reorg")
+		}
+	}
 	rs.registered = true
 	rs.grp.allOK = rs.grp.allOK && hintOK
 	if c.hint > rs.maxHint {
@@ -574,7 +594,7 @@ func (s *Sim) register(c *client) {
 		// asks the backend to scan (it starts at the better of the client's
 		// and the persisted hint) must cover the place where the request is
 		// confirmed/spent right now.
-		if len(hs) == 1 && rs.grp.allOK && !rs.multi && (start > hs[0].b.height || end < hs[0].b.height) {
+		if len(hs) == 1 && rs.judged() && (start > hs[0].b.height || end < hs[0].b.height) {
 			s.fail(rs, "rescan-range-misses", "the notifier asks for a historical rescan of [%d..%d] for %s (client hint %d, persisted hint %d/%v) but the request is matched %s", start, end, rs.key, c.hint, cached, hasCached, describeHits(hs))
 		}
 		// Assumption: a rescan does not outlive the request it was
@@ -758,6 +778,18 @@ func (s *Sim) deliver(q *rescan) {
 	s.removeRescan(q)
 	if rs.outstanding == q {
 		rs.outstanding = nil
+	}
+	if q.found != nil {
+		subs := 0
+		for _, c := range s.clients {
+			if c.alive && c.rs == rs && c.epoch == s.epoch {
+				subs++
+			}
+		}
+		if subs == 0 {
+			rs.orphan = true
+			r.Count("probe_orphan_details")
+		}
 	}
 	s.cur = callCtx{kind: "Update"}
 	var err error
